@@ -128,23 +128,33 @@ func vfFaultScenarios(tier string) []*vfRouteScenario {
 	return out
 }
 
-func TestVerifC04(t *testing.T) {
+// TestVerifC03Faults: the safety half of C03 (acknowledgements on one source stream never decrease and never
+// exceed the largest exclusive high watermark received on that stream) over the fault scenarios of C04: a
+// reconnected source stream starts with a lower high watermark than targets may re-acknowledge.
+func TestVerifC03Faults(t *testing.T) {
+	vfOnlySigs = map[string]bool{"ack-decreased": true, "ack-above-high": true}
+	vfFaultCheck(t, "C03", "TestVerifC03Faults")
+}
+
+func TestVerifC04(t *testing.T) { vfFaultCheck(t, "C04", "TestVerifC04") }
+
+func vfFaultCheck(t *testing.T, property, testName string) {
 	if vrt.IsWorker() {
 		vfRouteWorker(t)
 		return
 	}
-	res := vrt.NewResult("C04", "model_checking")
+	res := vrt.NewResult(property, "model_checking")
 	defer func() {
 		if err := res.Write(); err != nil {
 			t.Fatal(err)
 		}
 	}()
-	props := map[string]bool{"C04": true}
+	props := map[string]bool{property: true}
 	if p := vrt.ReplayPath(); p != "" {
 		vfRouteReplay(t, p, props, res)
 		return
 	}
-	pool := vrt.NewPool("TestVerifC04", vrt.Workers(), 60*time.Second)
+	pool := vrt.NewPool(testName, vrt.Workers(), 60*time.Second)
 	deadline := vrt.Deadline()
 	st := &vfBFSStats{Outcomes: map[string]bool{}, Exhaustive: true}
 	var names []string
